@@ -2,7 +2,10 @@ package introspection
 
 import (
 	"fmt"
+	"strconv"
 
+	"github.com/ccbrown/api-fu/graphql/ast"
+	"github.com/ccbrown/api-fu/graphql/parser"
 	"github.com/ccbrown/api-fu/graphql/schema"
 )
 
@@ -32,7 +35,9 @@ func (d *SchemaData) GetSchemaDefinition() (*schema.SchemaDefinition, error) {
 
 		switch t.Kind {
 		case "SCALAR":
-			types[t.Name] = &schema.ScalarType{}
+			types[t.Name] = &schema.ScalarType{
+				LiteralCoercion: literalValue,
+			}
 		case "OBJECT":
 			types[t.Name] = &schema.ObjectType{}
 		case "INTERFACE":
@@ -162,6 +167,12 @@ func (d *SchemaData) GetSchemaDefinition() (*schema.SchemaDefinition, error) {
 					def.Fields[field.Name] = fieldDef
 				}
 			}
+			def.ResultCoercion = func(v interface{}) (map[string]interface{}, error) {
+				if m, ok := v.(map[string]interface{}); ok {
+					return m, nil
+				}
+				return nil, fmt.Errorf("unexpected input object value: %T", v)
+			}
 		}
 	}
 
@@ -173,7 +184,111 @@ func (d *SchemaData) GetSchemaDefinition() (*schema.SchemaDefinition, error) {
 		}
 	}
 
+	d.setDefaultValues(types, ret)
+
 	return ret, nil
+}
+
+// Custom scalars are given this literal coercion, as their actual coercion is unknown: every
+// literal is accepted and represented by its natural Go value.
+func literalValue(v ast.Value) interface{} {
+	switch v := v.(type) {
+	case *ast.BooleanValue:
+		return v.Value
+	case *ast.IntValue:
+		if n, err := strconv.ParseInt(v.Value, 10, 0); err == nil {
+			return int(n)
+		}
+		return v.Value
+	case *ast.FloatValue:
+		if n, err := strconv.ParseFloat(v.Value, 64); err == nil {
+			return n
+		}
+		return v.Value
+	case *ast.StringValue:
+		return v.Value
+	case *ast.EnumValue:
+		return v.Value
+	case *ast.ListValue:
+		ret := make([]interface{}, len(v.Values))
+		for i, item := range v.Values {
+			ret[i] = literalValue(item)
+		}
+		return ret
+	case *ast.ObjectValue:
+		ret := make(map[string]interface{}, len(v.Fields))
+		for _, field := range v.Fields {
+			ret[field.Name.Name] = literalValue(field.Value)
+		}
+		return ret
+	}
+	return nil
+}
+
+// Turns the defaultValue literals of arguments and input fields back into default values. This
+// happens once all types are complete, as the literals are coerced to their types. Literals that
+// can't be parsed or coerced are skipped.
+func (d *SchemaData) setDefaultValues(types map[string]schema.NamedType, def *schema.SchemaDefinition) {
+	literals := map[*schema.InputValueDefinition]string{}
+	add := func(values map[string]*schema.InputValueDefinition, data []InputValueData) {
+		for _, v := range data {
+			if def, ok := values[v.Name]; ok && v.DefaultValue != nil {
+				literals[def] = *v.DefaultValue
+			}
+		}
+	}
+	addFields := func(fields map[string]*schema.FieldDefinition, data []FieldData) {
+		for _, f := range data {
+			if def, ok := fields[f.Name]; ok {
+				add(def.Arguments, f.Args)
+			}
+		}
+	}
+	for _, t := range d.Types {
+		switch def := types[t.Name].(type) {
+		case *schema.ObjectType:
+			addFields(def.Fields, t.Fields)
+		case *schema.InterfaceType:
+			addFields(def.Fields, t.Fields)
+		case *schema.InputObjectType:
+			add(def.Fields, t.InputFields)
+		}
+	}
+	for _, dir := range d.Directives {
+		if def, ok := def.Directives[dir.Name]; ok {
+			add(def.Arguments, dir.Args)
+		}
+	}
+
+	var resolve func(def *schema.InputValueDefinition)
+	resolve = func(def *schema.InputValueDefinition) {
+		literal, ok := literals[def]
+		if !ok {
+			return
+		}
+		delete(literals, def)
+		if !def.Type.IsInputType() {
+			return
+		}
+		// The coerced value of an input object includes the defaults of its fields.
+		if obj, ok := schema.UnwrappedType(def.Type).(*schema.InputObjectType); ok {
+			for _, field := range obj.Fields {
+				resolve(field)
+			}
+		}
+		if value, errs := parser.ParseValue([]byte(literal)); len(errs) > 0 {
+			return
+		} else if ast.IsNullValue(value) {
+			if !schema.IsNonNullType(def.Type) {
+				def.DefaultValue = schema.Null
+			}
+		} else if v, err := schema.CoerceLiteral(value, def.Type, nil); err == nil && v != nil {
+			def.DefaultValue = v
+		}
+	}
+	for def := range literals {
+		resolve(def)
+	}
 }
 
 type DirectiveData struct {
@@ -295,9 +410,10 @@ func (d FieldData) getFieldDefinition(types map[string]schema.NamedType) (*schem
 }
 
 type InputValueData struct {
-	Name        string
-	Description string
-	Type        TypeData
+	Name         string
+	Description  string
+	Type         TypeData
+	DefaultValue *string
 }
 
 func (d InputValueData) getInputValueDefinition(types map[string]schema.NamedType) (*schema.InputValueDefinition, error) {
@@ -322,5 +438,6 @@ func (d EnumValueData) getEnumValueDefinition(types map[string]schema.NamedType)
 	return &schema.EnumValueDefinition{
 		Description:       d.Description,
 		DeprecationReason: d.DeprecationReason,
+		Value:             d.Name,
 	}, nil
 }
